@@ -20,7 +20,8 @@ RULE = ("addresses generated from the data-file grammar: N/B/F/L word form, /bit
         "may neither report success nor change the table. distinct = (form, file type, element class, bit, op) evaluated")
 ASSUMPTIONS = [
     "ST/A/R files and timer/counter writes are outside the property; leading zeros, counts on bit addresses and I/O words beyond 4 are don't-cares",
-    "reference data-table model: N,B,S,I,O 1 word; F,L 2 words; T,C 3 words (control, PRE, ACC)",
+    "reference data-table model: N,B,S,I,O 1 word; F,L 2 words; T,C 3 words (control, PRE, ACC); one word in six of the random memory image is an edge value "
+    "(0, 1, 0x7FFF, 0x8000, 0xFFFF: an idle timer has PRE / ACC 0)",
 ]
 ANCHORS = [
     ("pycomm3/slc_driver.py", "parse_tag"), ("pycomm3/slc_driver.py", "SLCDriver._read_tag"), ("pycomm3/slc_driver.py", "SLCDriver._write_tag"),
